@@ -182,7 +182,11 @@ class Dummy(Case):
             for idx in np.ndindex(*shape):
                 keys = tuple((shells[i].tag, idx[2 * i], comps[i][idx[2 * i + 1]]) for i in range(len(shells)))
                 arr[idx] = case._sym(I, case._canon(keys, tuple(idx[2 * len(shells):])))
-            return mk.array(arr) if mk.symbolic else arr.astype(float)
+            blk = mk.array(arr) if mk.symbolic else arr.astype(float)
+            # the real contraction routines return transposed views: hand the block out with a non-contiguous memory
+            # layout (same logical content), so that reshape-as-view assumptions in the assembly code show
+            rev = list(range(blk.ndim))[::-1]
+            return blk.transpose(rev).copy().transpose(rev)
 
         base = {"one": BaseOneIndex, "two_symm": BaseTwoIndexSymmetric, "two_asymm": BaseTwoIndexAsymmetric,
                 "four_symm": BaseFourIndexSymmetric}[kind]
